@@ -384,7 +384,7 @@ def replay_failures(obl, out, pid=PID):
                           "%s: the generated impl is bounded by %s, the documented resolution gives %s for: #[derive_ex(%s)] %s" % (
                               why, got, [sorted(case["expected_markers"]), sorted(case["expected_field_types"])], case["attr"], " ".join(case["item"].split())[:400]))
         else:
-            out.broken.append("UNCONFIRMED counterexample for %s (%s): the real macro agrees with the reference on %s" % (label, why, " ".join(case["item"].split())[:300]))
+            e3.not_reproduced(out, model, "for %s (%s): the real macro agrees with the reference (or refuses the item) on %s" % (label, why, " ".join(case["item"].split())[:300]))
         if len(seen) >= 10:
             break
 
